@@ -107,6 +107,14 @@ def run(ctx):
     pb = [norm(dt.origin(t["args"][1]), g) for bi, t in dt.calls("VecDeque::<T, A>::push_back")]
     ctx.require(any(p == fld(s, 0) for p in pb for s in sbw), "T3-deduction-joined", dt.name, "push_back(head)", "the row that received a deduction is re-queued",
                 "rows that receive deductions are not re-queued: later consequences (and contradictions) are missed")
+    # ... unconditionally: every path from the deduction join to the next iteration passes the push_back(head)
+    pbs = [bi for bi, t in dt.calls("VecDeque::<T, A>::push_back") if any(norm(dt.origin(t["args"][1]), g) == fld(s, 0) for s in sbw)]
+    for jb, okj, s in ded:
+        lp = loop_containing(dt, jb)
+        okq = lp is not None and bool(pbs) and any(must_pass_through(dt, jb, pb, lp[0]) for pb in pbs)
+        ctx.ob("T3-deduction-requeued", dt.name, "join->push_back(head)", "ok" if okq else "violation",
+               "every deduction re-queues the row that received it, on every path" if okq else
+               "after a deduction the row that received the new entry is not always re-queued (conditional push): relators through the new entry that were scanned earlier from that row are never re-checked, inconsistent tables are listed", dt.span_of(jb))
     frm, to, gg = [("param", i, dt.debug.get(i, "")) for i in (3, 4, 5)]
     init = [t for bi, t in joins if [norm(dt.origin(x), g) for x in t["args"]][1:] == [frm, to, gg]]
     okinit = False
